@@ -170,10 +170,10 @@ func c15r2(c *Ctx) {
 		}
 	})
 	for _, in2 := range inserts {
-		_, miss := pathAvoidingE(nil, in2, func(ins ssa.Instruction) bool {
+		_, miss := pathAvoidingE(nil, in2, deepMust(func(ins ssa.Instruction) bool {
 			lk, ok := ins.(*ssa.Lookup)
 			return ok && fieldOfLoad(lk.X) == need
-		}, isReturn, nil, nil)
+		}, 2), isReturn, nil, nil)
 		c.Check("every insertion of a pod IP checks for pending endpoint replays", in2.Pos(), !miss, "a path inserts a new pod IP without consulting needResync: EndpointSlices that arrived before this Pod are never re-processed")
 	}
 	c.Check("addPod inserts into the IP index", ap.Pos(), insert != nil, "no InsertOrNew(podsByIP, ...)")
@@ -183,16 +183,21 @@ func c15r2(c *Ctx) {
 			lk, ok := ins.(*ssa.Lookup)
 			return ok && fieldOfLoad(lk.X) == need
 		}
-		_, found := pathAvoidingE(nil, insert, isNeedLookup, isReturn, nil, nil)
+		_, found := pathAvoidingE(nil, insert, deepMust(isNeedLookup, 2), isReturn, nil, nil)
 		c.Check("a newly indexed pod IP always checks for pending endpoint replays", insert.Pos(), !found, "a path inserts a new pod IP without consulting needResync: EndpointSlices that arrived before this Pod are never re-processed")
 		// on the found edge: delete + queue
 		var lk *ssa.Lookup
-		eachInstr(ap, func(ins ssa.Instruction) {
+		apq := ap // the function holding the needResync lookup: addPod or a helper it calls
+		if g := funcHoldingDeep(ap, isNeedLookup, 2); g != nil {
+			apq = g
+		}
+		eachInstr(apq, func(ins ssa.Instruction) {
 			if isNeedLookup(ins) {
 				lk = ins.(*ssa.Lookup)
 			}
 		})
 		if lk != nil {
+			ap := apq
 			var foundE []Edge
 			for _, i := range allIfs(ap) {
 				if ex, ok := i.Cond.(*ssa.Extract); ok && ex.Tuple == ssa.Value(lk) && ex.Index == 1 {
